@@ -810,9 +810,45 @@ func (p c05) lazyPrimary(c *core.Ctx) {
 	c.Nontrivial("lazyprim|" + g.Sc.GraphSig())
 }
 
+// lazyMisfit: an optional by-name point names a lazy component that does not fit the field (an interface it
+// does not implement): the point stays empty - and the lazy component, which nothing needs, stays untouched.
+func (p c05) lazyMisfit(c *core.Ctx) {
+	g := world.NewG(c.Rng)
+	lz := g.AddNode(7, "lazy-b") // T07: IB only, lazy, Init + AfterPropertiesSet
+	h := g.AddNode([]int{2, 13, 0, 1}[c.Rng.Intn(4)], g.FreshName(1))
+	slot := []string{"IA0", "IA1", "IC0"}[c.Rng.Intn(3)] // interfaces T07 does not implement
+	g.SetTag(h, slot, "wire", "lazy-b,required=false")
+	for x, nx := 0, c.Rng.Intn(3); x < nx; x++ {
+		g.AddRandomNode(world.TypesEagerPlain, 0.2)
+	}
+	g.ShuffleOrders()
+	r := world.Start(g.Sc, world.Options{})
+	c.Count("starts", 1)
+	c.Count("lazy_candidate_starts", 1)
+	detail := failDetail(g.Sc, r, map[string]any{"events": renderEvents(r.Log.Events(), 60)})
+	if r.Outcome() != "ok" {
+		c.Fail("", "start did not succeed: "+core.Short(r.OutcomeDetail(), 300), detail)
+		return
+	}
+	if refs, _ := r.SlotRefs(r.Nodes[h], slot); len(refs) != 1 || !refs[0].Nil {
+		c.Fail("", fmt.Sprintf("optional point %s `wire:\"lazy-b,required=false\"` was filled although the named component does not fit the field", slot), detail)
+		return
+	}
+	ln := g.Sc.Nodes[lz].DisplayName()
+	if n := countEvents(r, "init", ln) + countEvents(r, "aps", ln) + countEvents(r, "before", ln); n > 0 {
+		c.Fail("", fmt.Sprintf("lazy component %q was created / initialised (%d callbacks) although no created component needs it: the only point that names it cannot hold it", ln, n), detail)
+		return
+	}
+	c.Nontrivial("lazymisfit|" + g.Sc.GraphSig())
+}
+
 func (p c05) lazyCandidates(c *core.Ctx) {
-	if c.Rng.Intn(2) == 0 {
+	switch c.Rng.Intn(3) {
+	case 0:
 		p.lazyPrimary(c)
+		return
+	case 1:
+		p.lazyMisfit(c)
 		return
 	}
 	g := world.NewG(c.Rng)
